@@ -31,14 +31,14 @@ CLAIMED = {
                 text="The RFC 1928 / SOCKS4(a) grammar is written in TLA+; TLC checks its own laws (prefix law, UDP header round trip) and enumerates boundary requests with every truncation; the real penguin-socks readers/writers are run on every case (EOF and pending input modes) and on random requests, and TLC validates every observation (result, consumed bytes, produced bytes).",
                 note=REF_NOTE, ref="DESIGN.md section 4 (C18)"),
     "C20": dict(engine="chain", technique="TLA+ model of chain operations (Chain.tla) explored by TLC; operation sequences replayed on LongChain/CowBytes; observations validated by TLC",
-                text="TLC explores all operation sequences to a fixed depth from small chains with arguments at, inside and one past every boundary and checks that the canonical semantics meets the relational postcondition on the flattened sequence; every explored sequence is replayed on the real LongChain (borrowed and owned chunks, debug and production profiles) and TLC validates each observed step against the postcondition; CowBytes accessors/comparisons/hash are compared with TLA+-computed results.",
+                text="TLC explores all operation sequences to a fixed depth from small chains with arguments at, inside and one past every boundary and checks that the canonical semantics meets the relational postcondition on the flattened sequence; every explored sequence is replayed on the real LongChain (borrowed and owned chunks, debug and production profiles) and TLC validates each observed step against the postcondition; CowBytes accessors/comparisons/hash are compared with TLA+-computed results. The consuming and observing methods every Buf inherits from the trait (copy_to_bytes, copy_to_slice, get_u8/get_u16, has_remaining, chunks_vectored) are operations / observations too, and a call that panics on an out-of-range argument must leave a well-formed value behind.",
                 note=REF_NOTE, ref="DESIGN.md section 4 (C20)"),
     "C12": dict(engine="wake", technique="atomic-step TLA+ models checked by TLC (WriterWake.tla: sequentially consistent; WriterWakeRA.tla: view-based release/acquire memory with the AtomicWaker internals) + loom-enumerated executions of the real code validated by TLC against the same contract",
-                text="TLC explores every interleaving of the writer's poll and the task's acknowledge/close at the grain of single atomic operations (spurious CAS failures included) for eight scenarios and checks the credit/wake-up contract (the pinned check-register-return algorithm is rejected as a self-test); an in-crate loom module (hook, feature verif-hooks) lets loom enumerate the interleavings of the REAL poll_obtain_write_permission / acknowledge / disallow_write under its C11 model, and TLC validates the observable history of every execution (results, which poll's waker was woken, final credit) against the same contract.",
+                text="TLC explores every interleaving of the writer's poll and the task's acknowledge/close at the grain of single atomic operations (spurious CAS failures included) for eight scenarios and checks the credit/wake-up contract (the pinned check-register-return algorithm is rejected as a self-test); an in-crate loom module (hook, feature verif-hooks) lets loom enumerate the interleavings of the REAL poll_obtain_write_permission / acknowledge / disallow_write under its C11 model, and TLC validates the observable history of every execution (results, which poll's waker was woken, final credit) against the same contract. WriterWakeRA.tla repeats the design-level check on a view-based release/acquire + relaxed memory model that includes the atomic operations inside futures' AtomicWaker (stale loads, release sequences, race freedom of the waker cell): the contract holds with the code's orderings and with all of penguin-mux's orderings relaxed; a flag-guarded wake that is correct under sequential consistency is rejected.",
                 note="the weak-memory model (release/acquire + relaxed, no SeqCst fences, no promises) is a design-level model: orderings are not observable in traces; on the implementation side weak-memory behaviours are explored by loom's C11 approximation (no load buffering / out-of-thin-air); quick tier bounds loom preemptions at 3",
                 ref="DESIGN.md section 4 (C12)"),
     "C17": dict(engine="tls", technique="TLA+ decision table + identity-reload state machine (TlsAuth.tla) enumerated by TLC; real rustls handshakes (in-memory duplex and the real server_main with SIGUSR1 reloads over loopback TCP) validated by TLC",
-                text="TLC enumerates the 72-cell authentication matrix and all reload interleavings of a small identity state machine written from the property text (it carries the server's client CA and its generations: a reload replaces certificate and key and re-reads the client-CA bundle at the configured path, a rotation of that bundle in place takes effect at the next reload and not before, a failed reload changes nothing; a client-side machine covers a roots file replaced in place between connects; negative-control models -- stale, in-place, disconnecting, client-CA-dropping, stale-CA, eager-CA, stale-roots, deaf reloads -- must fail); every cell and script is executed as real handshakes with rcgen-generated chains: through the repository's own tls_connect / make_server_config / reload_tls_identity over an in-memory duplex, and through the real server entry point (server_main in-process on a loopback port, certificate files rewritten, SIGUSR1 raised, probes with a trusted client certificate, none, and one from another CA before and after every reload), with an application-data round trip deciding 'reached the server', and TLC validates every logged observation.",
+                text="TLC enumerates the 72-cell authentication matrix and all reload interleavings of a small identity state machine written from the property text (it carries the server's client CA and its generations: a reload replaces certificate and key and re-reads the client-CA bundle at the configured path, a rotation of that bundle in place takes effect at the next reload and not before, a failed reload changes nothing; a client-side machine covers a roots file replaced in place between connects; negative-control models -- stale, in-place, disconnecting, client-CA-dropping, stale-CA, eager-CA, stale-roots, deaf reloads -- must fail); every cell and script is executed as real handshakes with rcgen-generated chains: through the repository's own tls_connect / make_server_config / reload_tls_identity over an in-memory duplex, and through the real server entry point (server_main in-process on a loopback port, certificate files rewritten, SIGUSR1 raised, probes with a trusted client certificate, none, and one from another CA before and after every reload), with an application-data round trip deciding 'reached the server', and TLC validates every logged observation. Returning clients that keep their TLS state (one rustls ClientConfig per certificate across the connections of a script, TLS 1.3 and 1.2) offer tickets: the machine carries tickets, a ticket counts only under the configuration that issued it, and a shared-session-cache control must fail.",
                 note="thin use of TLA+ (decision table + small state machine); cryptography trusted to rustls/webpki/rcgen; the application client is TLS 1.3 only, TLS 1.2 is covered on the server side with a reference client; the real-server part uses real time only for generous deadlines (30 s) that separate tool errors from observations",
                 ref="DESIGN.md section 4 (C17)"),
     "C14": dict(engine="gate", technique="TLA+ decision table (Upgrade.tla) enumerated by TLC; every case sent in-process to the real hyper Service with an unknown-path twin; responses validated by TLC",
